@@ -14,6 +14,18 @@ CHECKS = {
    technique="TLA+ EventsOK (sequential replay of the emitted batch is well-formed, ends in the post-state, no event for an unchanged key) checked by TLC on the model and on every recorded transition of the real cache",
    text="Same exhaustive universe and the same recorded transitions as C01; for each one TLC replays the events the real cache returned on the recorded pre-content and requires Create only on absent keys, Update only on present keys with a strictly newer version, Delete only on present keys, the replay to end exactly in the observed post-content, and no event for a key whose entry did not change. Minimality for redelivered / stale / rejected inputs and unchanged relists is therefore decided for every input of the universe, not for samples.",
    note="Trusted: as C01. Event order inside one batch is free as long as the replay is well-formed (the property says so). System-level mirror checks (a subscriber replaying events equals the cache) belong to the controller/tree families."),
+ "C17": dict(cat="model_checking", engine="filters", design="5 C17, 3.5",
+   technique="filter terms as TLA+ data with Accept/Equivalent defined in Filters.tla; the real FiltersEqual/Equals evaluated on every ordered pair of terms of the universe, each reported-equal pair and each same-constructor / permuted-sources pair judged by TLC (trace/FilterRecords.tla)",
+   text="Every ordered pair of terms of the universe (quick: 2,490 combinator terms -> 6.2M pairs and 970 workload terms -> 0.9M pairs; thorough: 20k + 19k terms -> 0.8 billion pairs) is passed through the real FiltersEqual; every pair reported equal is judged by TLC, which recomputes both accept sets from the specification and requires them to agree on all 176 objects. Every comparable term is built twice and, for workload filters, with its sources reversed and rotated; TLC requires those to compare equal. Exhaustive at depth 2, seeded samples at depth 3.",
+   note="Trusted: TLC, Filters.tla's Accept (written from the property text / Kubernetes label-selector semantics), the harness' term-to-constructor mapping. Pairs that involve a replication-controller pods filter are judged under C19's known finding D6, not here."),
+ "C18": dict(cat="model_checking", engine="filters", design="5 C18, 3.5",
+   technique="recursive TLA+ evaluator Accept(term, object) (Filters.tla) compared by TLC with the recorded result of the real filter's Accept on every (term, object) of the universe",
+   text="For every term of the universe (all leaves, Not/And/Or of one and two children, empty And/Or, seeded depth-3 samples) the real filter is built with the library's constructors and Accept is called twice on each of 176 objects (3 namespaces x 3 names x all label maps over 2 keys x 3 values, plus typed objects); TLC evaluates the same term on the same object with the specification's evaluator and rejects the record on any disagreement or on an impure (differing) second call.",
+   note="Trusted: as C17. Exhaustive over the stated term/object universe at depth 2; depth 3 sampled with VERIF_SEED."),
+ "C19": dict(cat="model_checking", engine="filters", design="5 C19, 3.5",
+   technique="Kubernetes ownership rule WSelects(kind, workload, labels) in Filters.tla; every set of up to 2 (quick) / 3 (thorough) workloads per kind built as real typed objects, the real PodsFilter/ServicesFilter/NodeFilter/InvolvedFilter/SelectorMatchFilter evaluated on all candidate objects and judged by TLC",
+   text="Exhaustive over workloads in 2 namespaces with selectors {nil, empty, one label, two labels, In, NotIn, Exists} (map selectors for services and replication controllers), two template label sets, same and different names across namespaces, for all seven workload kinds; plus ingress backends, node, involved-object and selector-match filters. TLC compares every recorded verdict with the reference rule.",
+   note="Trusted: as C17. Deviations confined to replication-controller sources are the known finding D6 (KNOWN-FINDING); every other kind is a violation. Workload filters are only constrained on pods (services filter: on services)."),
 }
 
 NOT_YET = {
@@ -53,6 +65,8 @@ def main():
         "engines": [
             {"name": "kernel", "path": "/verif/spec/CacheKernel.tla /verif/spec/MCCache.tla /verif/spec/trace/CacheJudge.tla /verif/spec/trace/CacheRecords.tla /verif/spec/trace/CacheWalk.tla /verif/harness/kernel.go /verif/harness/kwalk.go /verif/tools/fam_kernel.py",
              "serves_properties": ["C01", "C02"], "kind_free_text": "TLC model checking of the cache kernel + exhaustive transition recording from the real cache actor judged by TLC"},
+            {"name": "filters", "path": "/verif/spec/Filters.tla /verif/spec/trace/FilterRecords.tla /verif/harness/filters.go /verif/tools/fam_filters.py",
+             "serves_properties": ["C17", "C18", "C19"], "kind_free_text": "filter terms as data; real constructors/Accept/FiltersEqual recorded over an exhaustive term x object universe; TLC judges with the specification's evaluator"},
         ],
         "checks": checks,
         "not_applicable": na,
